@@ -191,7 +191,7 @@ func (w *verifWorld) endStep() {
 // does): a planned fault gets a reading in 1970 (deadline expired, the call fails at once),
 // every other call a deadline 25 s ahead.
 func (w *verifWorld) nativeClockPlan() {
-	ok := time.Now().Add(25 * time.Second).UnixNano()
+	ok := verifWallNow().Add(25 * time.Second).UnixNano()
 	plan := make([]int64, 256)
 	for k := range plan {
 		plan[k] = ok
@@ -200,6 +200,16 @@ func (w *verifWorld) nativeClockPlan() {
 		}
 	}
 	verifrt.NativeClock(plan)
+}
+
+// verifWallNow: the real wall clock (native only). NOT spelled as a call of time.Now: a replay
+// that carries a schedule is built from instrumented copies of every file of the package - the
+// harness files included - in which each such call is rewritten to verifrt.Now(), i.e. it would
+// consume one of the readings nativeClockPlan has lined up for lookupPeer's I/O calls and shift
+// every planned I/O fault by one call.
+func verifWallNow() time.Time {
+	epoch := time.Unix(0, 0)
+	return epoch.Add(-time.Until(epoch))
 }
 
 // nativeSettle: give the loopback lookupd's goroutines time to see what nsqd sent (native only).
